@@ -28,10 +28,16 @@ var CollateFuncs = map[string]func(string, string) int{
 			}
 			return r
 		}
-		return strings.Compare(
-			strings.Map(lc, a),
-			strings.Map(lc, b),
-		)
+		la, lb := strings.Map(lc, a), strings.Map(lc, b)
+		// SQLite compares with a C string routine: once both strings have
+		// a NUL byte at the same place nothing after it is looked at, only
+		// the lengths.
+		for i := 0; i < len(la) && i < len(lb) && la[i] == lb[i]; i++ {
+			if la[i] == 0 {
+				return cmpInt64(int64(len(la)), int64(len(lb)))
+			}
+		}
+		return strings.Compare(la, lb)
 	},
 }
 
